@@ -179,3 +179,54 @@ pub fn unit_sweep<VM: VMBinding>(mmtk: &MMTK<VM>, block: Address, state: u8) -> 
 pub fn unit_mark_lines_for_object<VM: VMBinding>(object: ObjectReference, state: u8) -> usize {
     Line::mark_lines_for_object::<VM>(object, state)
 }
+
+// ------------------------------------------------------------------------------------------
+// C28: a real MonotonePageResource (contiguous) driven without a space: only the cursor and the
+// accounting are touched, no memory is mapped.
+// ------------------------------------------------------------------------------------------
+
+use crate::util::heap::space_descriptor::SpaceDescriptor;
+use crate::util::heap::{MonotonePageResource, PageResource};
+
+/// A stand-alone contiguous `MonotonePageResource`.
+pub struct UnitMonotone<VM: VMBinding> {
+    pr: MonotonePageResource<VM>,
+    desc: SpaceDescriptor,
+}
+
+impl<VM: VMBinding> UnitMonotone<VM> {
+    /// `MonotonePageResource::new_contiguous(start, bytes, VM_MAP)`.
+    pub fn new(start: Address, bytes: usize) -> Self {
+        Self {
+            pr: MonotonePageResource::new_contiguous(start, bytes, crate::mmtk::VM_MAP.as_ref()),
+            desc: SpaceDescriptor::create_descriptor_from_heap_range(start, start + bytes),
+        }
+    }
+    /// `reserve_pages`.
+    pub fn reserve(&self, pages: usize) -> usize {
+        self.pr.reserve_pages(pages)
+    }
+    /// `get_new_pages(descriptor, reserved, required, tls)`: `(start, pages, new_chunk)`.
+    pub fn alloc(&self, reserved: usize, required: usize) -> Option<(Address, usize, bool)> {
+        self.pr
+            .get_new_pages(self.desc, reserved, required, VMThread::UNINITIALIZED)
+            .ok()
+            .map(|r| (r.start, r.pages, r.new_chunk))
+    }
+    /// `clear_request`.
+    pub fn clear(&self, pages: usize) {
+        self.pr.clear_request(pages)
+    }
+    /// `reset`.
+    pub fn reset(&self) {
+        unsafe { self.pr.reset() }
+    }
+    /// `reset_cursor`.
+    pub fn reset_cursor(&self, top: Address) {
+        self.pr.reset_cursor(top)
+    }
+    /// `(reserved_pages, committed_pages, cursor)`.
+    pub fn counters(&self) -> (usize, usize, Address) {
+        (self.pr.reserved_pages(), self.pr.committed_pages(), self.pr.cursor())
+    }
+}
